@@ -6,12 +6,14 @@
   at the root.
 -/
 import Valida.AddSchema
+import Valida.Dsl
 import ValidaSpec.Walk
 import ValidaProofs.Lemmas.Basic
 import ValidaProofs.C03
 import ValidaProofs.C05
 import ValidaProofs.C07
 import ValidaProofs.C18
+import ValidaProofs.Lemmas.C05Walk
 namespace ValidaProofs
 open Valida ValidaGen ValidaSpec
 
@@ -41,7 +43,7 @@ theorem C05_valid_iff_every_selected_node_satisfies (r : RuleM) (c : Cond PyVal)
         t.failures.map (fun f => (f.value, f.path)) =
           ((sel.zip fd.result).filter (fun x => !x.2)).map (fun x => (x.1.1, PyVal.tuple x.1.2)) ∧
         ∀ f ∈ t.failures, f.reasons ≠ []) := by
-  sorry
+  exact C05W.verdict_walk r c doc d t hr.datum hr.multi hr.source hr.steps hr.lits hr.valueKind hdoc hconc ht
 
 /-- prefixing a reported concrete path -/
 def prefixPath (pre : List PyVal) : PyVal → PyVal
@@ -61,13 +63,36 @@ theorem C18_rerooted_rule_judges_subdocument (root : Path) (r : RuleM) (c : Cond
     t'.tested = t.tested ∧ t'.isValid = t.isValid ∧
     t'.failures.map (·.value) = t.failures.map (·.value) ∧
     t'.failures.map (·.path) = t.failures.map (fun f => prefixPath rootPath f.path) := by
-  sorry
+  exact C05W.judges_subdocument root r c doc sub rootPath d ds t t' (prefixPath rootPath) (fun _ => rfl)
+    hroot hrootne hrootsteps hr.datum hr.multi hr.source hr.steps hr.lits hr.valueKind hdoc hsub hconc ht ht'
 
 /-- … and when the root reaches nothing, the re-rooted rule is untested and valid -/
 theorem C18_rerooted_rule_absent_root (root : Path) (r : RuleM) (c : Cond PyVal) (doc : PyVal) (d : DataV)
     (hroot : walk childrenOf root.parts doc [] = []) (hrootne : root.parts ≠ [])
     (hrootsteps : StepsOk root.parts) (hr : RuleInDomain r c) (hdoc : DataV.ofPy doc = .ok d) :
     ruleTestOn (reroot root r) doc = .ok { tested := false, isValid := true, failures := [], data := doc } := by
-  sorry
+  exact C05W.absent_root root r doc d hroot hrootne hrootsteps hr.steps hdoc
+
+/-! ### non-vacuity -/
+
+/-- Bool-valued check of a rule test (for kernel-evaluated examples): tested, invalid, exactly one
+    failure, with the given index, value and concrete path -/
+def oneFailureAt (r : Except Exc RuleTestR) (idx : Nat) (value path : PyVal) : Bool :=
+  match r with
+  | .ok t => t.tested && !t.isValid &&
+      (match t.failures with
+       | [f] => f.index == idx && valueIs (.ok f.value) value && valueIs (.ok f.path) path && !f.reasons.isEmpty
+       | _ => false)
+  | .error _ => false
+
+/-- the rule `("a", ListValue())` / `Value.greater_than(value=1)` on `{"a": [0, 2]}`: tested, not
+    valid, one failure – the value `0` at path `("a", 0)` -/
+example : oneFailureAt (do
+    let lv ← Part.mkList .none .none none none
+    let p ← Path.mk' [.prim (.str "a"), .part lv]
+    let c ← Dsl.call Arg.lit .value "greater_than" [] [("value", .lit (.int 1))]
+    ruleTestOn { path := p, cond := c, cast := [] } (.dict [(.str "a", .list [.int 0, .int 2])]))
+      0 (.int 0) (.tuple [.str "a", .int 0]) = true := by
+  decide +kernel
 
 end ValidaProofs
